@@ -778,6 +778,28 @@ def run_spatial_case(case):
             compare(fails, f"{cls}.init_edge_list", net2, expected(A, directed, wg), {}, wtol=GRID_RTOL)
     guarded(f"{cls}.init", p_init)
 
+    # copy() of a spatially embedded network: the same network - also when its weights were assigned by hand or installed
+    # by another weight type than the one it was built with, and after loading
+    def p_copy():
+        src = build()
+        variants = [("as-built", None)]
+        if w is not None:
+            variants.append(("assigned-weights", w))
+        for label, wv in variants:
+            if wv is not None:
+                src.node_weights = wv
+            w_src = np.array(src.node_weights, dtype=float)
+            for name, L in attrs.items():
+                src.set_link_attribute(name, L)
+            cp = src.copy()
+            compare(fails, f"{cls}.copy[{label}]", cp, expected(A, directed, w_src), {}, wtol=GRID_RTOL)
+        if geo:
+            for nwt in ("irrigation", None):
+                src.set_node_weight_type(nwt)
+                cp = src.copy()
+                compare(fails, f"{cls}.copy[type-{nwt}]", cp, expected(A, directed, geo_w(nwt)), {}, wtol=GRID_RTOL)
+    guarded(f"{cls}.copy", p_copy)
+
     with tempfile.TemporaryDirectory(prefix="c05_") as d:
         for fmt in FORMATS:
             a_fmt = {k: v for k, v in attrs.items() if fmt != "gml" or k.isalnum()}
